@@ -44,6 +44,22 @@ run)
   done
   git -C $EV checkout -q -- . ; git -C $EV clean -fdq
   ;;
+cross)
+  # usage: cross <ID>/<name> <CHECK_ID> [<CHECK_ID>...]  -- run other properties' checks against one seeded change
+  item=$2; shift 2
+  id=${item%%/*}; name=${item#*/}; p=/verif/seeded/$id/$name/patch.diff
+  git -C $EV checkout -q -- . ; git -C $EV clean -fdq
+  git -C $EV apply "$p" || { echo "apply failed"; exit 2; }
+  for cid in "$@"; do
+    pkg=$(pkg_of $cid)
+    (cd $EH && RUSTC_WRAPPER= cargo build --profile verif -p $pkg >/tmp/evalbuild.log 2>&1) || { echo "build failed"; continue; }
+    out=$(cd /tmp && VERIF_ROOT=$ER timeout 3000 $ET/verif/$pkg $cid quick 2>&1); rc=$?
+    sig=$(echo "$out" | grep -m1 -o 'signature=[^ ]*' | cut -c11-90)
+    rm -f $ER/replays/$cid/viol-*
+    echo -e "$id\t$name\tcross:$cid\trc=$rc\t$sig" | tee -a /verif/seeded/results_cross.tsv
+  done
+  git -C $EV checkout -q -- . ; git -C $EV clean -fdq
+  ;;
 clean)
   git -C /repo worktree remove --force $EV 2>/dev/null; rm -rf $EV $EH $ER $ET
   ;;
